@@ -235,7 +235,7 @@ theorem WF_first (n : Nat) (l : List Ev) (x : Ev) (h : WF n (l ++ [x])) : okFirs
 /-- the token: where the chain's single thread of control is -/
 def Phase (c : Chain) : Prop :=
   match c.hist with
-  | [] => c.queue = [.start] ∧ c.invoked = 0 ∧ dones c.hist = 0
+  | [] => c.queue = [.start] ∧ c.invoked = 0 ∧ c.cursor = 0 ∧ dones c.hist = 0
   | .task i _ :: _ => c.queue = [] ∧ c.invoked = i + 1 ∧ c.cursor = i ∧ c.calls i = 0 ∧ (∀ j, j < i → c.calls j = 1)
       ∧ dones c.hist = i
   | .done i e r :: _ => c.queue = [.cb e r] ∧ c.invoked = i + 1 ∧ c.cursor = i ∧ (∀ j, j < i + 1 → c.calls j = 1)
@@ -287,22 +287,28 @@ theorem good_step (n : Nat) (c c' : Chain) (l : Label) (hc : CInv n c) (hp : Pha
       cases hh : c.hist with
       | nil =>
         simp only [Phase, hh] at hp
-        obtain ⟨hq1, hi0, hd0⟩ := hp
+        obtain ⟨hq1, hi0, hcur, hd0⟩ := hp
         rw [hq] at hq1
         injection hq1 with hx hr
         subst hx; subst hr
         simp only [runClo, tryExec]
         split
         · rename_i hlt
-          try simp only at hlt
           refine ⟨?_, ?_⟩
-          · simp [Phase, hh, hi0, dones, isDone]
-          · simp [WF, hh, okFirst]; omega
+          · dsimp only [Phase]
+            refine ⟨rfl, by omega, hcur, hc.callsZero 0 (by omega), fun j hj => by omega, ?_⟩
+            rfl
+          · try dsimp only
+            dsimp only [WF, okFirst]
+            exact ⟨rfl, rfl, by rw [← hn]; exact hlt⟩
         · rename_i hlt
-          try simp only at hlt
           refine ⟨?_, ?_⟩
-          · simp [Phase, hh, hi0, dones, isDone]
-          · simp [WF, hh, okFirst]; omega
+          · dsimp only [Phase]
+            refine ⟨rfl, fun j hj => by omega, ?_⟩
+            rw [hi0]; rfl
+          · try dsimp only
+            dsimp only [WF, okFirst]
+            exact ⟨rfl, rfl, by omega⟩
       | cons ev t =>
         cases ev with
         | task i a =>
@@ -319,49 +325,50 @@ theorem good_step (n : Nat) (c c' : Chain) (l : Label) (hc : CInv n c) (hp : Pha
           rw [hq] at hq1
           injection hq1 with hx hr
           subst hx; subst hr
-          rw [hh] at hw
+          try rw [hh] at hw
           simp only [runClo, invokeCallback]
           cases e with
           | true =>
             simp only [if_true]
             refine ⟨?_, ?_⟩
-            · simp only [Phase, hh]
-              refine ⟨rfl, ?_, ?_⟩
-              · intro j hj; exact hcalls j (by simp only at hj; omega)
-              · simp only [dones_final, dones_task, dones_done] at hd ⊢
-                omega
-            · simp only [hh, WF]
-              exact ⟨by simp [okPair], hw⟩
+            · dsimp only [Phase]
+              refine ⟨rfl, fun j hj => hcalls j (by omega), ?_⟩
+              rw [dones_final, dones_done]
+              rw [dones_done] at hd
+              omega
+            · try dsimp only
+              try dsimp only [WF]
+              exact ⟨⟨rfl, rfl, Or.inl rfl⟩, hw⟩
           | false =>
             simp only [Bool.false_eq_true, if_false, tryExec]
             split
             · rename_i hlt
-              try simp only at hlt
+              try dsimp only at hlt
               refine ⟨?_, ?_⟩
-              · simp only [Phase, hh]
-                refine ⟨rfl, by simp only; omega, by simp only; omega, ?_, ?_, ?_⟩
-                · simp only
-                  exact hc.callsZero (c.cursor + 1) (by omega)
-                · intro j hj
-                  exact hcalls j (by simp only at hj; omega)
-                · simp only [dones_final, dones_task, dones_done] at hd ⊢
-                  omega
-              · simp only [hh, WF]
+              · dsimp only [Phase]
+                refine ⟨rfl, by omega, rfl, hc.callsZero (c.cursor + 1) (by omega),
+                  fun j hj => hcalls j (by omega), ?_⟩
+                rw [dones_task, dones_done]
+                rw [dones_done] at hd
+                omega
+              · try dsimp only
+                try dsimp only [WF]
                 refine ⟨?_, hw⟩
-                simp only [okPair]
-                refine ⟨trivial, by omega, trivial, by omega⟩
+                dsimp only [okPair]
+                exact ⟨rfl, by omega, rfl, by omega⟩
             · rename_i hlt
-              try simp only at hlt
+              try dsimp only at hlt
               refine ⟨?_, ?_⟩
-              · simp only [Phase, hh]
-                refine ⟨rfl, ?_, ?_⟩
-                · intro j hj; exact hcalls j (by simp only at hj; omega)
-                · simp only [dones_final, dones_task, dones_done] at hd ⊢
-                  omega
-              · simp only [hh, WF]
+              · dsimp only [Phase]
+                refine ⟨rfl, fun j hj => hcalls j (by omega), ?_⟩
+                rw [dones_final, dones_done]
+                rw [dones_done] at hd
+                omega
+              · try dsimp only
+                try dsimp only [WF]
                 refine ⟨?_, hw⟩
-                simp only [okPair]
-                refine ⟨trivial, trivial, Or.inr (by omega)⟩
+                dsimp only [okPair]
+                exact ⟨rfl, rfl, Or.inr (by omega)⟩
   | complete i e r =>
     simp only [fire] at hf
     split at hf
@@ -386,18 +393,20 @@ theorem good_step (n : Nat) (c c' : Chain) (l : Label) (hc : CInv n c) (hp : Pha
             · omega
           subst hik
           refine ⟨?_, ?_⟩
-          · simp only [Phase, hh]
-            refine ⟨by simp [hq1], hinv, hcur, ?_, ?_⟩
+          · dsimp only [Phase]
+            refine ⟨by rw [hq1]; rfl, hinv, hcur, ?_, ?_⟩
             · intro j hj
               simp only [upd]
               split
               · omega
               · exact hcalls j (by omega)
-            · simp only [dones_final, dones_task, dones_done] at hd ⊢
+            · rw [dones_done, dones_task]
+              rw [dones_task] at hd
               omega
-          · rw [hh] at hw
-            simp only [hh, WF]
-            exact ⟨by simp [okPair], hw⟩
+          · try rw [hh] at hw
+            try dsimp only
+            try dsimp only [WF]
+            exact ⟨rfl, hw⟩
         | done k e' r' =>
           simp only [Phase, hh] at hp
           have := hp.2.2.2.1 i (by omega)
@@ -412,7 +421,7 @@ theorem good_reachable (n : Nat) (c : Chain) (h : Reachable n c) : AtMostOnce c 
   induction h with
   | init =>
     intro _
-    exact ⟨by simp [Phase, dones], trivial⟩
+    exact ⟨by simp [Phase], trivial⟩
   | @step c c' l hr hf ih =>
     intro hg
     obtain ⟨hp, hw⟩ := ih (atMostOnce_back c c' l hf hg)
